@@ -5,8 +5,9 @@ from harness import gen_db as GD, observe as O, sql_oracle as SO
 
 PID = 'C18'
 THEOREMS = ['PyDBML.C18.perm', 'PyDBML.C18.nodup', 'PyDBML.C18.perm_tables',
-            'PyDBML.C18.depends_only_on_model', 'PyDBML.C18.chain_violates']
-MODULES = ['PyDBMLProofs.Props.C18']
+            'PyDBML.C18.depends_only_on_model', 'PyDBML.C18.chain_violates',
+            'PyDBML.C18.order_sorted', 'PyDBML.C18.order_stable', 'PyDBML.C18.order_identity_without_hosts']
+MODULES = ['PyDBMLProofs.Props.C18', 'PyDBMLProofs.Props.C18Order']
 
 CHAIN = 'Table a {\n  id int [ref: > b.id]\n}\nTable b {\n  id int\n}\n'
 
